@@ -2,7 +2,7 @@ from . import COMMON_TB, NOTE
 
 PROP = {
     "modules": ["Proofs.C15"],
-    "streams": [{"name": "arrf"}],
+    "streams": [{"name": "arrf"}, {"name": "alias"}],
     "rule": "arrf: every array of length 0..4 over {0, 1, 2, -1, 1.5, \"a\", \"b\", \"B\", nil} (7 381 arrays; quick gives the 6 561 "
             "arrays of length 4 in the []any representation only) x 20 filter calls (compact reverse first last uniq size, concat with "
             "five arguments, join with three separators, map: k/size, sort, sort: k, sort_natural, sort_natural: k) x up to seven Go "
